@@ -22,6 +22,7 @@ from gen import nontrivial, signature
 from pipeline import ImplFns, compare_value_arrays, explicit_case, materialise_case, model_solve
 from props.simcommon import base_out
 
+CANARY = True
 RULE = ("cases = generated dyadic specifications x {affine transformation of utility, beta = 0, horizon change of a period-independent "
         "model, degenerate stochastic transition}; distinct = structural signature x law; evaluations = array entries related by the law")
 ASSUMPTIONS = ["exact comparison on dyadic inputs (a, b, beta dyadic)", "rows of every transition array sum to one (generator)"]
